@@ -7,6 +7,7 @@ import (
 	"os"
 	"os/exec"
 	"strings"
+	"time"
 )
 
 // Driver is a client of the compiled Lean model driver (one request line, one reply line).
@@ -48,9 +49,25 @@ func (d *Driver) Ask(line string) string {
 	if _, err := io.WriteString(d.in, line+"\n"); err != nil {
 		infra("driver write: %v", err)
 	}
-	r, err := d.out.ReadString('\n')
-	if err != nil {
-		infra("driver read: %v (after %q)", err, line)
+	type reply struct {
+		r   string
+		err error
+	}
+	ch := make(chan reply, 1)
+	go func() {
+		r, err := d.out.ReadString('\n')
+		ch <- reply{r, err}
+	}()
+	var r string
+	select {
+	case rp := <-ch:
+		if rp.err != nil {
+			infra("driver read: %v (after %q)", rp.err, line)
+		}
+		r = rp.r
+	case <-time.After(5 * time.Minute):
+		_ = d.cmd.Process.Kill()
+		infra("the model driver did not answer within 5 minutes (line %.200q): no verdict", line)
 	}
 	r = strings.TrimRight(r, "\n")
 	d.Lines++
